@@ -303,7 +303,9 @@ func (d *Discharger) discharge(i int, o *Obligation) {
 				os.Remove(f2)
 				if r0.status == "unsat" {
 					o.Solver, o.Ms, o.Output, o.Status = r0.solver+"(ground)", r0.ms, r0.out, "discharged"
-					os.Remove(file)
+					if os.Getenv("GOVC_KEEPALL") == "" {
+						os.Remove(file)
+					}
 					return
 				}
 			}
@@ -374,7 +376,7 @@ func (d *Discharger) discharge(i int, o *Obligation) {
 	default:
 		o.Status = "undischarged"
 	}
-	if o.Status == "discharged" || o.Status == "cover-ok" {
+	if (o.Status == "discharged" || o.Status == "cover-ok") && os.Getenv("GOVC_KEEPALL") == "" {
 		os.Remove(file)
 	}
 }
